@@ -42,7 +42,8 @@ THEOREMS = ['C06_indices_first_fastest', 'C06_items_array',
             'C06_extract_surfaces', 'C06_parse_ranges_spelled',
             'C06_parse_lattice_option', 'C06_getitem_tuple_last_fastest',
             'C06_parse_fill_kw_array', 'C06_parse_fill_kw_short_and_shapes',
-            'C06_array_entry_transformation_refuted']
+            'C06_array_entry_transformation_refuted',
+            'C06_lattice_end_to_end', 'C06_lattice_end_to_end_3d']
 TRUSTED = [
     'hand-written model coq/C06/Model.v (modelled, tied by execution only)',
     'cells, surfaces other than planes and the effect of a transformation on a '
@@ -51,6 +52,12 @@ TRUSTED = [
     'universe and the 12 numbers of filltr; how a 12-number transformation '
     'moves a surface (p -> O + B^T p, MIP transform_frame) is C04\'s subject '
     'and is taken as the definition of apply_tr here',
+    'C06_lattice_end_to_end: what cell_transform and pot_fill do with the '
+    'cells develop_lattice generates (region = image under apply_tr; volume = '
+    'container region /\\ image of each leaf cell of the fill universe under '
+    'the fill transformation, with the leaf\'s material) is restated from '
+    'C05/C04 as the definition lattice_volumes, not proved here; covered by '
+    'the point sweep',
     'MIP extract_surfaces_list (order of the surfaces of the cell card) is '
     'not modelled: the model takes its output; covered by the sweep only',
     'binary64 rounding, numpy matmul evaluation order and x**2 vs x*x: '
